@@ -256,8 +256,14 @@ def cases(kinds):
     # constructive core: a good client is open while hostile clients come and go, then it is checked
     core = st.tuples(st.lists(hostile, min_size=1, max_size=3), st.lists(step, max_size=5)).map(
         lambda t: [["gopen", 0], ["gopen", 1]] + t[0] + [["gcheck", 0]] + t[1] + [["gcheck", 1]])
+    # a barrage: more failing clients than the thread pool has workers, while a good client is connected
+    loud = st.tuples(st.just("hostile"), st.sampled_from(["junk-brine", "not-a-triple", "bad-message-kind", "corrupt-zlib", "flag-garbage",
+                                                           "length-minus-one", "frame-then-garbage"]), st.integers(0, 1000),
+                     st.sampled_from(["close", "abrupt", "half"])).map(list)
+    barrage = st.lists(loud, min_size=5, max_size=7).map(lambda hs: [["gopen", 0]] + hs + [["gcheck", 0]])
     return st.fixed_dictionaries({"server": st.sampled_from(kinds), "transport": st.sampled_from(["tcp", "tcp", "unix"]),
-                                  "auth": st.booleans(), "steps": st.one_of(core, core, st.lists(step, min_size=2, max_size=12))})
+                                  "auth": st.booleans(),
+                                  "steps": st.one_of(core, core, barrage, st.lists(step, min_size=2, max_size=12))})
 
 
 def plan(tier, scale):
